@@ -305,6 +305,7 @@ func c08TokenInterp(t *testing.T, c c08TCase, rule int) (v kit.Verdict) {
 		down := false
 		outages := 0
 		serverOnly := false
+		blackhole := false // the current outage accepts connections and never answers
 
 		// Redis side: sequential model; identical requests => the number of grants is order-independent
 		judgeRedis := func(what string, l int, sec, n int64, callers, granted int) bool {
@@ -425,7 +426,11 @@ func c08TokenInterp(t *testing.T, c c08TCase, rule int) (v kit.Verdict) {
 				wg.Wait()
 				classes["concurrent"] = true
 			}
-			if srv.realNow().Sub(t0) > c08Stall {
+			if slow := srv.realNow().Sub(t0) > c08Stall; slow && down && blackhole && !firstInOutage[l] {
+				// expected: the request that meets the black hole waits for go-redis'
+				// real-time read deadline, 4 attempts of 3 s
+				classes["blackhole-first-request-waited-for-read-timeouts"] = true
+			} else if slow {
 				stalled = true
 				return false
 			}
@@ -582,6 +587,9 @@ func c08TokenInterp(t *testing.T, c c08TCase, rule int) (v kit.Verdict) {
 						srv.setMode(c08Loading)
 					case "err":
 						srv.setMode(c08Err)
+					case "blackhole":
+						srv.setMode(c08Blackhole)
+						blackhole = true
 					default:
 						srv.closeServer()
 					}
@@ -613,6 +621,7 @@ func c08TokenInterp(t *testing.T, c c08TCase, rule int) (v kit.Verdict) {
 					srv.setMode(c08Up)
 					srv.restartServer()
 					down = false
+					blackhole = false
 					for l := range onRedis {
 						onRedis[l] = false
 					}
@@ -1056,6 +1065,75 @@ func c08OutageGenModes(rt *rapid.T, modes []string, concurrent bool) c08TCase {
 	return c
 }
 
+// c08BlackholeGen: ONE outage in which Redis accepts connections and never
+// answers. go-redis' socket deadlines are real time, so the request that
+// notices the outage costs about 12 s of wall clock (4 attempts x 3 s); the case
+// therefore has one limiter and one such outage, and during it only the caller
+// clock moves (every 100 ms of bubble time would be one more ping of the
+// monitor into the black hole, 12 s each). Few cases; each one is built to be
+// non-trivial.
+func c08BlackholeGen(rt *rapid.T) c08TCase {
+	c := c08TCase{Lims: c08GenLims(rt, 1, false)}
+	const epoch = int64(946684800)
+	model := c08NewBuckets(c.Lims)[0]
+	resc := &c08Rescue{rate: model.rate, burst: model.burst}
+	var callerMs, serverMs int64
+	allow := func(down bool, n int) {
+		if n == 0 {
+			avail, _ := model.filled(epoch+callerMs/1000, serverMs)
+			if down {
+				resc.advance(callerMs)
+				avail = resc.level / 1000
+			}
+			n = c08PickN(rt, avail, model.burst)
+		}
+		if down {
+			if resc.decide(callerMs, int64(n)) >= 0 {
+				resc.consume(int64(n))
+			}
+		} else {
+			model.allow(epoch+callerMs/1000, serverMs, int64(n))
+		}
+		c.Ops = append(c.Ops, c08TOp{K: "allow", N: n})
+	}
+	for i := rapid.IntRange(0, 3).Draw(rt, "before"); i > 0; i-- {
+		allow(false, 0)
+		if rapid.Bool().Draw(rt, "step") {
+			d := rapid.IntRange(1, 2500).Draw(rt, "ms")
+			c.Ops = append(c.Ops, c08TOp{K: "adv", D: d})
+			callerMs += int64(d)
+			serverMs += int64(d)
+		}
+	}
+	c.Ops = append(c.Ops, c08TOp{K: "outage", M: "blackhole"})
+	// the request that notices: mostly one the full in-process bucket must grant
+	first := rapid.SampledFrom([]int{1, 1, int(model.burst), int(model.burst), rapid.IntRange(1, int(model.burst)).Draw(rt, "n1"), int(model.burst) + 1}).Draw(rt, "first")
+	allow(true, first)
+	for i := rapid.IntRange(3, 12).Draw(rt, "during"); i > 0; i-- {
+		if rapid.IntRange(0, 3).Draw(rt, "adv") == 0 {
+			d := int64(rapid.IntRange(1, 3).Draw(rt, "k")) * 1000 / model.rate
+			if rapid.Bool().Draw(rt, "frac") {
+				d = int64(rapid.IntRange(1, 2500).Draw(rt, "ms"))
+			}
+			if d <= 0 {
+				d = 1
+			}
+			c.Ops = append(c.Ops, c08TOp{K: "adv", D: int(d), M: "caller"})
+			callerMs += d
+			continue
+		}
+		allow(true, 0)
+	}
+	settle := rapid.SampledFrom([]int{1000, 3000}).Draw(rt, "settle")
+	c.Ops = append(c.Ops, c08TOp{K: "recover", D: settle})
+	callerMs += int64(settle)
+	serverMs += int64(settle)
+	for i := rapid.IntRange(1, 4).Draw(rt, "after"); i > 0; i-- {
+		allow(false, 0)
+	}
+	return c
+}
+
 func TestVerif_C08_token(t *testing.T) {
 	c08GetServer()
 	kit.Run(t, "C08", "token", kit.Opts{Quick: 300, Thorough: 20000}, c08TokenGen,
@@ -1065,5 +1143,11 @@ func TestVerif_C08_token(t *testing.T) {
 func TestVerif_C08_outage(t *testing.T) {
 	c08GetServer()
 	kit.Run(t, "C08", "token-outage", kit.Opts{Quick: 250, Thorough: 12000}, c08OutageGen,
+		func(c c08TCase) kit.Verdict { return c08TokenInterp(t, c, c08RuleOutage) })
+}
+
+func TestVerif_C08_outage_blackhole(t *testing.T) {
+	c08GetServer()
+	kit.Run(t, "C08", "token-blackhole", kit.Opts{Quick: 1, Thorough: 48}, c08BlackholeGen,
 		func(c c08TCase) kit.Verdict { return c08TokenInterp(t, c, c08RuleOutage) })
 }
